@@ -141,6 +141,7 @@ Section Clauses.
   Definition fs_out_ok (p : packet) : bool :=
     if fs_out_pkt c p && negb (wl_iface c (pk_out p)) && negb (ct_invalid p)
     then not_dropped (hook raw e CH_OUTPUT p) && not_dropped (hook filter e CH_OUTPUT p)
+         && not_dropped (hook mangle e CH_POSTROUTING p)
     else true.
   (* responses on the untracked path (raw table sees them before conntrack) *)
   Definition fs_resp_ok (p : packet) : bool :=
@@ -211,6 +212,7 @@ Definition wiring_ok (k : case) (e : env) (p : packet) : bool :=
   wired_ok (k_hooks k) T_RAW (k_raw k) e "PREROUTING" CH_PREROUTING p
   && wired_ok (k_hooks k) T_RAW (k_raw k) e "OUTPUT" CH_OUTPUT p
   && wired_ok (k_hooks k) T_MANGLE (k_mangle k) e "PREROUTING" CH_PREROUTING p
+  && wired_ok (k_hooks k) T_MANGLE (k_mangle k) e "POSTROUTING" CH_POSTROUTING p
   && wired_ok (k_hooks k) T_FILTER (k_filter k) e "INPUT" CH_INPUT p
   && wired_ok (k_hooks k) T_FILTER (k_filter k) e "FORWARD" CH_FORWARD p
   && wired_ok (k_hooks k) T_FILTER (k_filter k) e "OUTPUT" CH_OUTPUT p.
@@ -233,7 +235,8 @@ Definition chain_agrees (impl : chains) (nb : string * list irule) : bool :=
 Definition shapes_ok (k : case) : bool :=
   hep_disp_ok (k_raw k) CH_FROM_HEP CH_FS_IN && hep_disp_ok (k_raw k) CH_TO_HEP CH_FS_OUT
   && disp_ok (k_raw k) (raw_hep_ok CH_FS_IN) CH_FROM_HEP && disp_ok (k_raw k) (raw_hep_ok CH_FS_OUT) CH_TO_HEP
-  && hep_disp_ok (k_mangle k) CH_FROM_HEP CH_FS_IN
+  && hep_disp_ok (k_mangle k) CH_FROM_HEP CH_FS_IN && hep_disp_ok (k_mangle k) CH_TO_HEP CH_FS_OUT
+  && match lookup (k_mangle k) CH_EGRESS_DSCP with Some b => noop_chain b | None => false end
   && hep_disp_ok (k_filter k) CH_FROM_HEP CH_FS_IN && hep_disp_ok (k_filter k) CH_TO_HEP CH_FS_OUT
   && match lookup (k_filter k) CH_FROM_WL with
      | Some b => wl_root_ok (k_filter k) b
